@@ -9,6 +9,7 @@ from ..r_readers import rule_tokenizer_rejections as _rule_tok_rej
 from ..r_codebooks import rule_cx_radical_lists as _rule_cxr
 from ..r_rings import rule_hybridization_table as _rule_hyb
 from ..r_codebooks import rule_not_bond_complement as _rule_notbond
+from ..r_round8 import rule_stereo_gates as _r8_gates
 
 LEVEL = 'other'
 
@@ -35,3 +36,4 @@ def run(ck, repo):
     _rule_cxr(ck, repo, 'C08.D2-cx-radical-lists', ['chython.files.daylight.smiles', 'chython.files.daylight.smarts'])
     _rule_hyb(ck, repo, 'C08.D4-hybridization')
     _rule_notbond(ck, repo, 'C08.D5-not-bond-complement')
+    _r8_gates(ck, repo, 'C08.D6-stereo-gates')
